@@ -361,6 +361,18 @@ def gen_race(rng):
     for i in range(n):
         t += rng.choice([0, 1, D, D, D, 2 * D, D // 2])
         ins.append(('c', t, i, rng.randint(0, 9), i, 0, rng.choice([0, 0, 1, 2, 3])))
+    if rng.random() < 0.4:
+        # a burst larger than everything that can be in flight at once (max_batch_size * max_concurrent_batches), all
+        # in one loop iteration, and one or two calls a few iterations later in the same instant: whatever queues the
+        # implementation keeps between the callers and the batch function, arrival order is arrival order
+        B = cfg['maxb'] * cfg['maxc']
+        n = B + rng.randint(1, 4)
+        t0 = rng.choice([0, 3, D])
+        ins = [('c', t0, i, rng.randint(0, 9), i, 0, 0) for i in range(n)]
+        for j in range(rng.randint(1, 2)):
+            ins.append(('c', t0, n + j, rng.randint(0, 9), n + j, 0, rng.choice([1, 2, 3]) + 3 * j))
+        if rng.random() < 0.5:
+            ins.append(('c', t0 + rng.choice([1, D, 3 * D]), n + 2, rng.randint(0, 9), n + 2, 0, rng.choice([0, 1, 2])))
     plan = dict(per=[[0] * 6 for _ in range(12)], order=0, raiseAt=[99] * 12, idelay=D, tail=rng.choice([0, 0, D]),
                 hops=rng.choice([0, 1, 2, 3]))
     return cfg, ins, plan
@@ -525,6 +537,128 @@ def run_chain(cfg, callers, plan):
         loop.close()
         asyncio.set_event_loop(None)
     return res, batches
+
+
+def gen_idle(rng):
+    """C11: one loop used, left alone for a while (not running, or busy with synchronous work), used again."""
+    R = rng.choice([0, 96, 640])
+    return {'ret': R, 'bt': rng.choice([4, 16]), 'dur': rng.choice([0, 8, 48]),
+            # idle phase measured from the answer of the first call: inside the window, at its edge, far beyond
+            'idle': rng.choice([R // 2, max(0, R - 1), R + 1, 3 * R + 7, 5000]),
+            # calls for the same key (and one bystander key) made right after the idle phase, before the loop has had
+            # a chance to run the timers that became due meanwhile; then a straggler while that work is pending / done
+            'after': rng.randint(1, 3), 'bystander': rng.random() < 0.5,
+            'straggler': rng.choice([None, 0, 1, 2, 60]), 'how': rng.choice(['stopped', 'busy'])}
+
+
+def run_idle(cfg):
+    """Returns (results: tag -> (issued, answered, value), batches [(t, keys)], t_done of the first call)."""
+    from aiuti.asyncio import AsyncBackgroundBatcher
+    loop = VLoop()
+    loop.horizon = HORIZON * 4 * TICK
+    asyncio.set_event_loop(loop)
+    now = lambda: round(loop.time() / TICK)
+    batches = []
+    res = {}
+    info = {}
+
+    async def bf(batch):
+        batch = list(batch)
+        batches.append((now(), [k for k, _ in batch]))
+        n = len(batches)
+        await asyncio.sleep(cfg['dur'] * TICK)
+        for k, a in batch:
+            yield k, ('v', k, n)
+
+    async def once(bt, tag, key):
+        t0 = now()
+        try:
+            r = await asyncio.wait_for(bt(key), HORIZON * TICK)
+        except BaseException as e:  # noqa
+            r = ('failed', type(e).__name__)
+        res[tag] = (t0, now(), r)
+
+    async def first():
+        info['bt'] = AsyncBackgroundBatcher(bf, max_batch_size=4, max_concurrent_batches=2,
+                                            batch_timeout=cfg['bt'] * TICK, retention_timeout=cfg['ret'] * TICK)
+        await once(info['bt'], 'first', 1)
+        info['done'] = now()
+
+    async def second():
+        bt = info['bt']
+        ts = [asyncio.ensure_future(once(bt, f'after{i}', 1)) for i in range(cfg['after'])]
+        if cfg['bystander']:
+            ts.append(asyncio.ensure_future(once(bt, 'bystander', 2)))
+        if cfg['straggler'] is not None:
+            await asyncio.sleep(cfg['straggler'] * TICK)
+            ts.append(asyncio.ensure_future(once(bt, 'straggler', 1)))
+        await asyncio.wait(ts, timeout=2 * HORIZON * TICK)
+
+    async def busy_then_second():
+        loop.block(cfg['idle'] * TICK)      # a callback doing synchronous work: nothing else runs meanwhile
+        await second()
+    try:
+        loop.run_until_complete(first())
+        if cfg['how'] == 'stopped':
+            loop.block(cfg['idle'] * TICK)
+            loop.run_until_complete(second())
+        else:
+            loop.run_until_complete(busy_then_second())
+    finally:
+        try:
+            loop.run_until_complete(loop.shutdown_asyncgens())
+        except BaseException:  # noqa
+            pass
+        loop.close()
+        asyncio.set_event_loop(None)
+    return res, batches, info.get('done')
+
+
+def monitor_idle(cfg, res, batches, t_done):
+    bad = []
+    R = cfg['ret']
+    for t, keys in batches:
+        if len(keys) != len(set(keys)):
+            bad.append(('C11', 'duplicate-key-in-batch', f'batch at {t} carries {keys}'))
+    for tag, (t0, t1, r) in res.items():
+        if r[0] != 'v':
+            bad.append(('C11', 'call-not-served', f'{tag} (issued at {t0}) ended with {r}'))
+    expected = 1 + cfg['after'] + (1 if cfg['bystander'] else 0) + (1 if cfg['straggler'] is not None else 0)
+    if len(res) != expected:
+        bad.append(('C11', 'call-never-answered', f'{expected} calls were made, answered: {sorted(res)}'))
+    if bad or 'first' not in res:
+        return bad
+    old = res['first'][2]
+    n1 = sum(1 for t, keys in batches if 1 in keys or '1' in keys)
+    afters = [res[f'after{i}'] for i in range(cfg['after']) if f'after{i}' in res]
+    issued = afters[0][0] if afters else None
+    if issued is not None and R > 0 and issued < t_done + R:
+        # inside the window: everybody shares the remembered outcome, no new work
+        for a in afters:
+            if a[2] != old:
+                bad.append(('C11', 'window-not-honoured', f'a call at {a[0]}, {a[0] - t_done} ticks after the answer '
+                            f'(retention {R}), got {a[2]} instead of the remembered {old}'))
+    if issued is not None and issued > t_done + R:
+        # after the window (the timer that forgets the key could not run during the idle phase): one fresh
+        # computation, shared by all the calls made together
+        vals = {a[2] for a in afters}
+        if old in vals:
+            bad.append(('C11', 'old-result-after-window', f'a call {issued - t_done} ticks after the answer (retention '
+                        f'{R}) got the old result {old}'))
+        if len(vals) > 1:
+            bad.append(('C11', 'pending-request-not-shared', f'{len(afters)} same-key calls made in one step got '
+                        f'different computations: {sorted(vals)}'))
+        st = res.get('straggler')
+        extra = 0
+        if st is not None and R == 0 and st[0] >= afters[0][1]:
+            extra = 1           # nothing is remembered with retention 0: a call after the answer is computed afresh
+        if st is not None and R > 0 and st[2] not in vals:
+            bad.append(('C11', 'pending-request-not-shared', f'a same-key call {st[0] - issued} ticks later, while '
+                        f'the fresh request was pending or remembered, got {st[2]} instead of sharing {sorted(vals)}'))
+        if n1 > 2 + extra:
+            bad.append(('C11', 'extra-work', f'key 1 was handed to the batch function {n1} times (batches {batches}); '
+                        f'expected the first computation and one fresh one'))
+    return bad
 
 
 def batch_of(oc):
